@@ -33,8 +33,12 @@ where I: Iterator, I::Item: PartialEq + Clone + std::fmt::Debug, F: Fn() -> I {
         // j items with next(), the rest through for_each (fold)
         let mut it = make(); let mut got = vec![];
         for _ in 0..j { if let Some(x) = it.next() { got.push(x); } }
-        it.by_ref().for_each(|x| got.push(x));
+        it.for_each(|x| got.push(x));           // by value: a `&mut` adaptor would not reach an overridden fold
         if got != all { return Some(format!("next x {} then for_each gives {} items, one pass gives {}", j, got.len(), n)); }
+        let mut it = make(); let mut got = vec![];
+        for _ in 0..j { if let Some(x) = it.next() { got.push(x); } }
+        got.extend(it.by_ref());
+        if got != all { return Some(format!("next x {} then extend gives {} items, one pass gives {}", j, got.len(), n)); }
         if it.next().is_some() { return Some("an item after the end".into()); }
         if j < n {
             let mut it = make();
